@@ -494,11 +494,25 @@ func (g *Gen) expand(pat string, v View) {
 			return
 		}
 		set := []string{leader}
+		var vs []string
 		if cf := v.Conf[leader]; cf != nil {
 			for id, voter := range cf.Members {
 				if !voter {
 					set = append(set, id)
+				} else if id != leader {
+					vs = append(vs, id)
 				}
+			}
+		}
+		// ... and possibly with some voters that are too few to confirm it (one fewer may stay if the
+		// leader is a voter itself; the draw does not know, so sometimes the leader keeps its quorum)
+		sort.Strings(vs)
+		if len(vs) >= 2 && rapid.Bool().Draw(t, "withVoters") {
+			k := rapid.IntRange(1, (len(vs)+1)/2).Draw(t, "kv")
+			for i := 0; i < k && len(vs) > 0; i++ {
+				j := rapid.IntRange(0, len(vs)-1).Draw(t, "vi")
+				set = append(set, vs[j])
+				vs = append(vs[:j], vs[j+1:]...)
 			}
 		}
 		sort.Strings(set)
@@ -516,6 +530,65 @@ func (g *Gen) expand(pat string, v View) {
 		}
 		st = append(st, advance(g.dur("d2", hb, 2*hb, et)), lit(Action{Op: "heal", Mode: "deliver"}), advance(g.dur("d3", hb, et)))
 		g.push("P9", st...)
+	case "P21": // the leader takes itself out of the voters while only part of the cluster hears about it
+		if leader == "" || len(g.C.Order) < 3 {
+			g.push("P21", advance(et))
+			return
+		}
+		others := g.C.others(leader)
+		carrier := g.pick("carrier", others)
+		var st []step
+		for _, o := range others {
+			if o != carrier {
+				st = append(st, lit(Action{Op: "link", Node: leader, Node2: o, Mode: "drop"}), lit(Action{Op: "link", Node: o, Node2: leader, Mode: "drop"}))
+			}
+		}
+		// the carrier receives the new configuration, the leader never learns that it did
+		st = append(st, lit(Action{Op: "link", Node: carrier, Node2: leader, Mode: g.holdMode("cmode")}))
+		if rapid.Bool().Draw(t, "demote") {
+			st = append(st, lit(Action{Op: "add", Node: leader, Node2: leader, Voter: false, Client: g.nextClient(), Timeout: 100}))
+		} else {
+			st = append(st, lit(Action{Op: "remove", Node: leader, Node2: leader, Client: g.nextClient(), Timeout: 100}))
+		}
+		st = append(st, advance(g.dur("d0", 5000, 20000, hb)))
+		// the leader keeps some of the others, too few to confirm it
+		set := []string{leader}
+		rest := append([]string(nil), others...)
+		for i := 0; i < len(rest); i++ {
+			if rest[i] == carrier {
+				rest = append(rest[:i], rest[i+1:]...)
+				break
+			}
+		}
+		k := rapid.IntRange(0, len(rest)).Draw(t, "kb")
+		for i := 0; i < k && len(rest) > 0; i++ {
+			j := rapid.IntRange(0, len(rest)-1).Draw(t, "bi")
+			set = append(set, rest[j])
+			rest = append(rest[:j], rest[j+1:]...)
+		}
+		sort.Strings(set)
+		st = append(st, lit(Action{Op: "partition", Set: set, Mode: "drop"}))
+		for _, b := range set {
+			if b != leader {
+				st = append(st, lit(Action{Op: "link", Node: leader, Node2: b, Mode: "prompt"}), lit(Action{Op: "link", Node: b, Node2: leader, Mode: "prompt"}))
+			}
+		}
+		st = append(st, advance(g.dur("d1", 2*et, 3*et, 5*et)))
+		nw := rapid.IntRange(1, 2).Draw(t, "nw")
+		for i := 0; i < nw; i++ {
+			st = append(st, func(g *Gen, v View) (Action, bool) {
+				id := newestLeaderExcept(v, leader)
+				if id == "" {
+					return Action{Op: "advance", DurUs: et}, true
+				}
+				return Action{Op: "submit", Node: id, Kind: "write", Client: g.nextClient(), Timeout: 2000}, true
+			}, advance(g.dur("dw", 20000, hb, 2*hb)))
+		}
+		for _, kd := range g.readKinds() {
+			st = append(st, lit(Action{Op: "submit", Node: leader, Kind: kd, Client: 9, Timeout: 1000}))
+		}
+		st = append(st, advance(g.dur("d2", hb, 2*hb, et)), lit(Action{Op: "heal", Mode: "deliver"}), advance(g.dur("d3", et, 3*et)))
+		g.push("P21", st...)
 	case "P10": // membership change under fault
 		g.push("P10", g.membershipSteps(v)...)
 	case "P11": // everything down, a strict majority (or everybody) comes back
@@ -673,7 +746,7 @@ func (g *Gen) membershipSteps(v View) []step {
 					members[id] = voter
 				}
 			}
-			kind := rapid.SampledFrom([]string{"addnv", "addv", "promote", "remove", "remove", "addv"}).Draw(g.T, "mkind")
+			kind := rapid.SampledFrom([]string{"addnv", "addv", "promote", "remove", "remove", "addv", "demote"}).Draw(g.T, "mkind")
 			fresh := ""
 			for i := 0; i < 7; i++ {
 				id := nodeID(i)
@@ -691,6 +764,22 @@ func (g *Gen) membershipSteps(v View) []step {
 					break
 				}
 				return Action{Op: "add", Node: at, Node2: fresh, Voter: kind == "addv", Client: g.nextClient(), Timeout: g.timeout()}, true
+			case "demote":
+				// AddServer(existing voter, isVoter=false) turns a voter - possibly the leader itself - into a non-voter
+				var vs []string
+				nv := 0
+				for id, voter := range members {
+					if voter {
+						vs = append(vs, id)
+						nv++
+					}
+				}
+				sort.Strings(vs)
+				if nv <= 1 {
+					kind = "remove"
+					break
+				}
+				return Action{Op: "add", Node: at, Node2: g.pick("dv", vs), Voter: false, Client: g.nextClient(), Timeout: g.timeout()}, true
 			case "promote":
 				var nv []string
 				for id, voter := range members {
